@@ -15,7 +15,11 @@ LReset == /\ open' = {} /\ first' = [p \in Pairs |-> 0] /\ data' = [p \in Pairs 
           /\ nBytes' = 0 /\ maxBytes' = DefaultMax
           /\ appended' = [p \in Pairs |-> <<>>] /\ lastSz' = 0 /\ cnt' = 0
           /\ res' = [kind |-> "none"] /\ panicked' = FALSE
+          /\ its' = [k \in Iters |-> NoIter]
 
+\* A read is the RANGING of After's iterator: the "after" operation is invoked when the ranging starts (the
+\* iterator may have been obtained long before: After itself touches nothing) and returns when it ends; it
+\* takes effect atomically in between (EventStore!Begin is its linearization point, After is Get+Begin+Next*).
 Apply(e) == CASE e.op = "open"   -> Open(e.s, e.t)
               [] e.op = "append" -> AppendItem(e.s, e.t, e.n, e.sz)
               [] e.op = "after"  -> After(e.s, e.t, e.idx)
@@ -44,10 +48,11 @@ Consume ==
        CASE e.ev = "reset" -> LReset /\ pend' = <<>>
          [] e.ev = "inv"   -> /\ pend' = (e.cid :> [e |-> e, done |-> FALSE, res |-> [kind |-> "none"]]) @@ pend
                               /\ UNCHANGED svars
-         [] e.ev = "ret"   -> /\ e.cid \in DOMAIN pend /\ pend[e.cid].done /\ ResOK(e, pend[e.cid].res)
+         [] e.ev = "ret"   -> /\ e.panic = ""   \* no operation of the store panics (NoPanic): such a line is never explained
+                              /\ e.cid \in DOMAIN pend /\ pend[e.cid].done /\ ResOK(e, pend[e.cid].res)
                               /\ pend' = [c \in DOMAIN pend \ {e.cid} |-> pend[c]]
                               /\ UNCHANGED svars
-         [] e.ev = "final" -> /\ DOMAIN pend = {} /\ FinalOK(e)
+         [] e.ev = "final" -> /\ e.panic = "" /\ DOMAIN pend = {} /\ FinalOK(e)
                               /\ UNCHANGED <<svars, pend>>
 
 LInit == Init /\ l = 1 /\ pend = <<>> /\ MarkInit
